@@ -804,6 +804,21 @@ func ruleC01Source(c *Ctx, docField string) {
 	var fromStore func(v ssa.Value, f *ssa.Function, depth int) (bool, string)
 	fromStore = func(v ssa.Value, f *ssa.Function, depth int) (bool, string) {
 		sl := backSlice(v)
+		// the whole text: a cut of a string on the way (the part of the document that fits a limit, the lines up
+		// to the cursor) means that what is parsed is not the document
+		for x := range sl {
+			if cut, ok := x.(*ssa.Slice); ok && types.TypeString(cut.X.Type().Underlying(), nil) == "string" && (cut.Low != nil || cut.High != nil) {
+				notif := false
+				for y := range sl {
+					if fieldAddrNamed(y, "Text") || fieldAddrNamed(y, "ContentChanges") {
+						notif = true // the change handler splices the running text
+					}
+				}
+				if !notif {
+					return false, "only a part of the text is handed on (a string cut at " + c.P.pos(cut.Pos()) + ")"
+				}
+			}
+		}
 		if sliceHasCall(sl, func(cal *ssa.Function, call *ssa.Call) bool {
 			if calleeNameIs(cal, "server.Server).GetDocument") {
 				return true
